@@ -25,7 +25,13 @@ Prop(attr, src, req, el) == [attr |-> attr, source |-> src, required |-> req, el
 StringE == Mk("String", EmptyKw)
 IntegerE == Mk("Integer", EmptyKw)
 
-SetKw(e, kw, val) == [e EXCEPT !.kw = [k \in DOMAIN e.kw \cup {kw} |-> IF k = kw THEN val ELSE e.kw[k]]]
+(* one attribute, two spellings in element records (a sub-schema or a boolean; one schema *)
+(* or a tuple): assigning one spelling replaces the other                                 *)
+AltSpelling(kw) == CASE kw = "additionalItems" -> {"additionalItemsB"} [] kw = "additionalItemsB" -> {"additionalItems"}
+                     [] kw = "additionalProperties" -> {"additionalPropertiesB"}
+                     [] kw = "additionalPropertiesB" -> {"additionalProperties"}
+                     [] kw = "items" -> {"itemsT"} [] kw = "itemsT" -> {"items"} [] OTHER -> {}
+SetKw(e, kw, val) == [e EXCEPT !.kw = [k \in (DOMAIN e.kw \ AltSpelling(kw)) \cup {kw} |-> IF k = kw THEN val ELSE e.kw[k]]]
 DelKw(e, kw) == [e EXCEPT !.kw = [k \in DOMAIN e.kw \ {kw} |-> e.kw[k]]]
 HasProp(e, attr) == \E i \in 1..Len(PropsOf(e)) : PropsOf(e)[i].attr = attr
 PropIdx(e, attr) == CHOOSE i \in 1..Len(PropsOf(e)) : PropsOf(e)[i].attr = attr
@@ -37,6 +43,12 @@ PutProp(e, p) ==
   ELSE SetKw(e, "properties", Append(PropsOf(e), p))
 RemoveProp(e, attr) ==
   SetKw(e, "properties", SelectSeq(PropsOf(e), LAMBDA p : p.attr # attr))
+(* props[new] = props.pop(attr): the property object moves to another attribute name; its *)
+(* JSON name (source) was fixed by its first binding and stays                             *)
+MoveProp(e, attr, new) ==
+  LET p == PropsOf(e)[PropIdx(e, attr)]
+  IN SetKw(e, "properties",
+           Append(SelectSeq(PropsOf(e), LAMBDA q : q.attr # attr), [p EXCEPT !.attr = new]))
 ToggleRequired(e, attr) ==
   SetKw(e, "properties",
         [PropsOf(e) EXCEPT ![PropIdx(e, attr)] = [@ EXCEPT !.required = ~@]])
